@@ -428,7 +428,7 @@ func corrupt(t *rapid.T, p *ir.Program) (string, bool) {
 		return "", false
 	}
 	s := plug[rapid.IntRange(0, len(plug)-1).Draw(t, "corrupt_step")]
-	kind := rapid.SampledFrom([]string{"dangling-step", "dangling-output", "dangling-stage", "dangling-input-field", "wrong-literal-type", "missing-required-input", "self-cycle", "back-edge", "dangling-output-ref", "unknown-input-key"}).Draw(t, "corruption")
+	kind := rapid.SampledFrom([]string{"dangling-step", "dangling-output", "dangling-stage", "dangling-input-field", "wrong-literal-type", "missing-required-input", "self-cycle", "back-edge", "dangling-output-ref", "unknown-input-key", "missing-input-key", "missing-input-key"}).Draw(t, "corruption")
 	switch kind {
 	case "dangling-step":
 		s.In = setFieldIR(s.In, "a", ir.StepRef("nosuchstep", "outputs", "success", "a"))
@@ -462,6 +462,12 @@ func corrupt(t *rapid.T, p *ir.Program) (string, bool) {
 		first.In = setFieldIR(first.In, "a", ir.StepRef(last.ID, "outputs", "success", "a"))
 	case "dangling-output-ref":
 		p.Outputs[0].E = ir.Obj(ir.F("x", ir.StepRef("ghost", "outputs", "success")))
+	case "missing-input-key":
+		// the whole `input` key of one step is missing while other steps have theirs
+		if len(plug) < 2 {
+			return "", false
+		}
+		s.NoInputKey = true
 	case "unknown-input-key":
 		s.In = append(s.In, ir.F("nosuchparam", ir.Lit(int64(1))))
 	}
@@ -590,6 +596,7 @@ func init() {
 						refs = append(refs, e)
 					}
 					sort.Strings(refs)
+					refs = dedup(refs) // two tags of one consumer may refer to the same source
 					w := want[consumer]
 					if strings.Join(refs, ";") != strings.Join(w, ";") {
 						out = append(out, viol("C10", "dependencies-differ", "", "node %s depends on [%s] but the workflow text implies [%s] (variant %d)", consumer, strings.Join(refs, "; "), strings.Join(w, "; "), i))
